@@ -11,7 +11,7 @@
                     property is violated by the code: null_timespan_bound_refuted) *)
 From Coq Require Import ZArith List Bool String Lia.
 From V Require Import Base.Tri Gen.TimespanGen Model.Pred Gen.PredGen Model.Expr Model.SqlExpr
-  Model.ExprLegacy Proofs.ExprProofsA Proofs.ExprProofsB Proofs.ExprProofsC Proofs.ExprProofsL Proofs.ExprProofsM Proofs.ExprProofsN.
+  Model.ExprLegacy Gen.RangeGen Proofs.ExprProofsA Proofs.ExprProofsB Proofs.ExprProofsC Proofs.ExprProofsL Proofs.ExprProofsM Proofs.ExprProofsN Proofs.ExprProofsR.
 Import ListNotations.
 Open Scope Z_scope.
 
@@ -87,6 +87,36 @@ Theorem in_range_null_unknown : forall rho m a b s, seval rho m = None ->
   tri_of_nv (seval rho (range_sql m a b s)) = UU.
 Proof. exact in_range_null. Qed.
 Print Assumptions in_range_null_unknown.
+
+(* ---- the same over gen_visit_in_range = SqlColumnVisitor.visit_in_range REGENERATED from the source (Gen/RangeGen.v,
+   harness/translators/expr_range.py); stop is the EXCLUSIVE upper bound the visitor receives, None = open-ended.
+   range_sql (the definition compile / compile_correct are stated over) IS the generated function on every bounded range,
+   so an edit of the range test -- e.g. a truthiness test where `stop is None` is meant, which turns the upper bound -1
+   (stop = 0) into "no upper bound" (seeded change C05b) -- breaks these proofs *)
+Theorem range_gen_matches_model : forall m a b s, gen_visit_in_range m a (Some (b + 1)) s = range_sql m a b s.
+Proof. exact range_gen_matches_model_p. Qed.
+Print Assumptions range_gen_matches_model.
+
+Theorem in_range_correct_gen : forall rho m x a stop s, 1 <= s -> seval rho m = Some (VInt x) ->
+  tri_of_nv (seval rho (gen_visit_in_range m a (Some stop) s)) = tri_of_bool (in_seqb x a (stop - 1) s).
+Proof. exact in_range_gen_p. Qed.
+Print Assumptions in_range_correct_gen.
+
+Theorem in_range_null_unknown_gen : forall rho m a stop s, seval rho m = None ->
+  tri_of_nv (seval rho (gen_visit_in_range m a (Some stop) s)) = UU.
+Proof. exact in_range_gen_null_p. Qed.
+Print Assumptions in_range_null_unknown_gen.
+
+Theorem range_gen_open_correct : forall rho m x a s, 1 <= s -> seval rho m = Some (VInt x) ->
+  tri_of_nv (seval rho (gen_visit_in_range m a None s)) = tri_of_bool ((a <=? x) && ((x - a) mod s =? 0)).
+Proof. exact range_gen_open_p. Qed.
+Print Assumptions range_gen_open_correct.
+
+(* non-vacuity at the bound itself: -3..-1 (stop = 0) does not contain 5 and contains -2 *)
+Example range_gen_upper_bound_minus_one :
+  tri_of_nv (seval (fun _ => None) (gen_visit_in_range (SVal (Some (VInt 5))) (-3) (Some 0) 1)) = FF /\
+  tri_of_nv (seval (fun _ => None) (gen_visit_in_range (SVal (Some (VInt (-2)))) (-3) (Some 0) 1)) = TT.
+Proof. exact range_gen_stop_zero_p. Qed.
 
 (* in_seqb is the documented meaning: "a..b:s is equivalent to the sequence a, a+s, a+2s, ... not exceeding b" *)
 Theorem in_seqb_spec : forall x a b s, 0 < s ->
